@@ -186,6 +186,7 @@ impl G {
     fn pick_set(&self, r: &mut Rng) -> (&'static str, SSet) {
         let e = self.sets.len();
         let ret = self.retention as usize;
+        if e == 0 { return ("invented_no_signers_registered", gen_valid_set(r)); }     // a gateway deployed without signers accepts nobody
         match r.below(10) {
             0 | 1 | 2 | 3 | 4 => ("latest", self.sets[e - 1].clone()),
             5 => { let k = if e > 1 { e - 1 - (1 + r.below(ret.min(e - 1).max(1) as u64) as usize).min(e - 1) } else { 0 }; ("older", self.sets[k].clone()) }
@@ -230,7 +231,7 @@ pub fn run(seed: u64, ntraces: usize) {
         let no_operator = r.chance(1, 12);
         let mut t0 = 1000 + r.below(1000);
         w.set_time(t0);
-        let nsets = 1 + r.below(2) as usize;
+        let nsets = if t % 8 == 7 { 0 } else { 1 + r.below(2) as usize };
         let sets: Vec<SSet> = (0..nsets).map(|_| gen_valid_set(&mut r)).collect();
         let op_arg = if no_operator { vec![0u8; 32] } else { operator.to_vec() };
         let mut args = vec![big(retention), domain.clone(), big(min_delay), op_arg.clone()];
@@ -270,7 +271,7 @@ pub fn run(seed: u64, ntraces: usize) {
                 (op_json("approve", format!("{}/{}/{}/n={}", mlabel, slabel, p.label, nm), &caller, now, json!({"messages": hx(&raw), "proof": hx(&p.bytes)})), st)
             } else if choice < 12 {
                 // rotateSigners
-                let (nlabel, newset) = match r.below(6) { 0 => gen_bad_set(&mut r), 1 => ("duplicate_of_registered", g.sets[r.below(g.sets.len() as u64) as usize].clone()), _ => ("fresh", gen_valid_set(&mut r)) };
+                let (nlabel, newset) = match r.below(6) { 0 => gen_bad_set(&mut r), 1 if !g.sets.is_empty() => ("duplicate_of_registered", g.sets[r.below(g.sets.len() as u64) as usize].clone()), _ => ("fresh", gen_valid_set(&mut r)) };
                 let mut raw = newset.encode(0);
                 if r.chance(1, 20) { raw.push(0); }
                 let (slabel, set) = g.pick_set(&mut r);
